@@ -87,4 +87,32 @@ theorem full_depends_on_winner_only (s s' : Sources) (h : winner s = winner s') 
 example : winner ⟨"", [], some "red", none, ""⟩ = winner ⟨"red", [], none, none, ""⟩ ∧
           accNoGlobal ⟨"", [], some "red", none, ""⟩ ≠ accNoGlobal ⟨"red", [], none, none, ""⟩ := by decide
 
+/-! ### css-class: the one attribute whose class definitions are joined, not overridden -/
+
+/-- `NewBaseComponent`'s merge for css-class: the values of all listed classes that define it, in list order, joined by a blank -/
+def cssClassValue (cs : List (Option String)) : String := " ".intercalate (cs.filterMap id)
+
+/-- `GetCSSClass` (since 6bdfa39: `GetWrittenAttribute("css-class")`; css-class has no built-in default) -/
+def accCssClass (s : Sources) : String :=
+  if s.own ≠ "" then s.own
+  else if cssClassValue s.classes ≠ "" then cssClassValue s.classes
+  else globalValue s
+
+/-- Spec for css-class: the same precedence as every other attribute, with the joined class values at the mj-class level -/
+def cssWinner (s : Sources) : String :=
+  ([s.own, cssClassValue s.classes, globalValue s].find? (· ≠ "")).getD ""
+
+theorem accCssClass_eq_winner (s : Sources) : accCssClass s = cssWinner s := by
+  unfold accCssClass cssWinner
+  by_cases h1 : s.own = ""
+  · by_cases h2 : cssClassValue s.classes = ""
+    · by_cases h3 : globalValue s = "" <;> simp [h1, h2, h3, List.find?]
+    · simp [h1, h2, List.find?]
+  · simp [h1, List.find?]
+
+/-- css-class reaches the element from mj-attributes too: with nothing written on the element or in its classes, the tag
+    default (else mj-all) is what it gets — the statement 6bdfa39 made true -/
+theorem accCssClass_global (s : Sources) (h1 : s.own = "") (h2 : s.classes = []) : accCssClass s = globalValue s := by
+  simp [accCssClass, h1, h2, cssClassValue]
+
 end Gomjml.Resolve
